@@ -32,3 +32,20 @@ PROPS["C02"] = {
     ],
     "assumptions": [],
 }
+
+PROPS["C04"] = {
+    "level": "proof",
+    "contracts": [
+        ("contracts.wordcode", "xdis.wordcode:findlabels"),
+        ("contracts.wordcode", "xdis.wordcode:findlabels/3.11+"),
+        ("contracts.wordcode", "xdis.cross_dis:findlabels_310"),
+        ("contracts.wordcode", "xdis.cross_dis:findlabels_310/3.11+"),
+        ("contracts.wordcode", "xdis.cross_dis:findlabels_pre_310"),
+        # the unpackers the finders consume by contract (also C02)
+        ("contracts.wordcode", "xdis.wordcode:unpack_opargs_wordcode"),
+        ("contracts.wordcode", "xdis.cross_dis:unpack_opargs_bytecode_310"),
+        ("contracts.wordcode", "xdis.cross_dis:unpack_opargs_bytecode_310/3.11+"),
+        ("contracts.wordcode", "xdis.cross_dis:unpack_opargs_bytecode"),
+    ],
+    "assumptions": [],
+}
